@@ -109,13 +109,18 @@ static void svd(vh::Rng & r, int type, vh::Out & out)
   }
   double scale = r.pick(std::vector<double>{1, 0.5, 0.125, 4, 0.1, 0.01, 3, 1000, 1e-3});
   int how = (int)r.range(0, 3);
-  FindRigidTransformationBySVD<PT> est;
+  // histories: one estimator and one pair of preconditioned point sets per point type, reused (recomputed) across all the
+  // registrations of a run - problems of varying sizes follow each other on the same objects
+  static FindRigidTransformationBySVD<PT> est;
+  static PreconditionedPointSet<PT> pa, pb;
   typename FindRigidTransformationBySVD<PT>::TransformationMatrixType H;
   if (how == 0) {H = est.find(ps, pt, cs);}
-  else if (how == 1) {PreconditionedPointSet<PT> a(ps, (S)scale), b(pt, (S)scale); H = est.find(a, b, cs);}
+  else if (how == 1) {pa.compute(ps, (S)scale); pb.compute(pt, (S)scale); H = est.find(pa, pb, cs);}
   else if (cm == 0 && how == 2) {H = est.find(ps, pt);}
-  else if (cm == 0) {PreconditionedPointSet<PT> a(ps, (S)scale), b(pt, (S)scale); H = est.find(a, b);}
-  else {H = est.find(ps, pt, cs); how = 0;}
+  else if (cm == 0) {
+    if (r.coin()) {pa.compute(ps, (S)scale); pb.compute(pt, (S)scale); H = est.find(pa, pb);}
+    else {PreconditionedPointSet<PT> a(ps, (S)scale), b(pt, (S)scale); H = est.find(a, b);}
+  } else {H = est.find(ps, pt, cs); how = 0;}
   bool ok = true;
   IM lin(DIM, IV(DIM)); IV ht;
   double mag = 1; for (auto v : t) {mag = std::max(mag, std::fabs((double)v));}
@@ -179,15 +184,17 @@ static void p2p(vh::Rng & r, int type, vh::Out & out)
   int how = (int)r.range(0, 3);
   // scales that keep the condition number of the normal matrix below 1e6 (the property's envelope)
   double scale = r.pick(std::vector<double>{1, 0.5, 0.125, 4, 0.1, 0.25, 10, 2, 0.05});
-  FindRigidTransformationByLeastSquares<PT> est;
+  // histories: two long-lived estimators per point type (plain / preconditioned), reused for problems of varying sizes
+  static FindRigidTransformationByLeastSquares<PT> estPlain, estPre;
+  static PreconditionedPointSet<PT> pa, pb;
   std::vector<Correspondence> cs; for (int k = 0; k < n; ++k) {cs.push_back(Correspondence((size_t)k, (size_t)k));}
   typename FindRigidTransformationByLeastSquares<PT>::TransformationMatrixType H;
-  if (how == 0) {H = est.find(ps, pt, ns);}
-  else if (how == 1) {H = est.find(ps, pt, ns, cs);}
+  if (how == 0) {H = estPlain.find(ps, pt, ns);}
+  else if (how == 1) {H = estPlain.find(ps, pt, ns, cs);}
   else {
-    PreconditionedPointSet<PT> a(ps, (S)scale), b(pt, (S)scale);
-    est.setPreconditioner(a, b);
-    H = how == 2 ? est.find(a, b, ns) : est.find(a, b, ns, cs);
+    pa.compute(ps, (S)scale); pb.compute(pt, (S)scale);
+    estPre.setPreconditioner(pa, pb);
+    H = how == 2 ? estPre.find(pa, pb, ns) : estPre.find(pa, pb, ns, cs);
   }
   bool ok = true;
   IM Hm(DIM + 1, IV(DIM + 1));
